@@ -6,8 +6,8 @@
 -/
 import FcProofs.Props.C20
 import FcProofs.Witness.C04
-namespace Fc
-open Fc.Cli
+namespace Fc.C20
+open Fc Fc.C04
 
 def rep (s : Scenario) : ExitOutcome × Option (List JSuite) :=
   ((fileReport wPf s).1, (fileReport wPf s).2.map fun j => [j])
@@ -74,4 +74,4 @@ example : Spec.reportOk (dirReport wPf ⟨none, none, false, false,
 example : Spec.reportOk (dirReport wPf ⟨none, none, false, false, [], [], ["b.csv"], [], []⟩) = true := by
   decide +kernel
 
-end Fc
+end Fc.C20
